@@ -153,7 +153,9 @@ func report(run *checkRun, verif string, verbose, writeEv bool) int {
 		if found && !anyFails {
 			fmt.Printf("NOTE: known finding %s no longer reproduces (obligation discharged)\n", k.Obligation)
 		}
-		if !found {
+		if !found && strings.HasPrefix(k.Obligation, "bounded:") {
+			fmt.Printf("NOTE: known finding %s lies outside this tier's bound (it is reached in the thorough tier)\n", k.Obligation)
+		} else if !found {
 			fmt.Printf("NOTE: known finding %s names an obligation that is no longer generated\n", k.Obligation)
 		}
 	}
